@@ -9,10 +9,13 @@
                (the sequence stops after a panic)
   `curved <tol> <nattr> <normalized> <ncmds> <cmds…> <nq> <queries…>`  (cmds also `Q cx cy x y a…`,
       `C c1x c1y c2x c2y x y a…`; calls in `R` likewise)
-      output:  `len <length> edges <table entries>` then the queries as above
-  `walk <start> <cap> (reg <interval> | rep <index> <n> <i…>) <ncmds> <cmds…>`  (cmds without attributes)
-      output:  `n <events>` then per event `x y tx ty distance`; `fuel` appended if the model's
-               loop bound was hit.
+      output:  as above (`alen` = `approximate_length(path, tol)`: closed form for quadratics,
+               quadratic approximation for cubics)
+  `walk <nattr> <start> <cap> (reg <interval> | rep <index> <n> <i…>) <ncmds> <cmds…>`
+  `curved_walk <tol> <nattr> …` (the same with curves)
+      output:  `n <events>` then per event `x y tx ty distance a…`; `fuel` appended if the model's
+               loop bound was hit.  `nattr = 0`: `walk_along_path`; `nattr > 0`: the same loop over
+               `PathWalker::with_attributes`.
 -/
 import LyonVerif.Drive.Common
 import LyonVerif.Model.Algo.Measure
@@ -80,40 +83,47 @@ def samplerAt (curved : Bool) (v : Array String) : String :=
   let qs : List (Query α) := rdQueries v nq (i + 1)
   let m : M α := Measure.mk nattr tol cmds
   let outs := Measure.run m normalized 0 qs
-  unwords ((if curved then ["len", fx (Measure.length m.edges), "edges", toString m.edges.length]
-            else ["len", fx (Measure.length m.edges), "alen", fx (approxLength m.evs),
-                  "edges", toString m.edges.length]) ++ (outs.map fOutput).flatten)
+  unwords (["len", fx (Measure.length m.edges), "alen", fx (approxLength tol m.evs),
+            "edges", toString m.edges.length] ++ (outs.map fOutput).flatten)
 
 def sampler (v : Array String) : String := samplerAt (α := α) false v
 def curved (v : Array String) : String := samplerAt (α := α) true v
 
 def toPEv : Cmd α → Walk.PEv α
-  | .begin p _ => .begin p
-  | .line p _ => .line p
-  -- the `walk` family is polyline only (the walker model has no curves)
-  | .quad _ p _ => .line p
-  | .cubic _ _ p _ => .line p
+  | .begin p a => .begin p a
+  | .line p a => .line p a
+  | .quad c p a => .quad c p a
+  | .cubic c1 c2 p a => .cubic c1 c2 p a
   | .end_ c => .end_ c
 
 def walkFuel : Nat := 200000
 
-def walk (v : Array String) : String :=
-  let start : α := rd v 0
-  let cap := rdNat v 1
+/-- `o` = offset of the common arguments (1 for `curved_walk`, whose first argument is the tolerance;
+the `walk` family uses tolerance 0.1, irrelevant for polylines) -/
+def walkAt (curved : Bool) (v : Array String) : String :=
+  let o := if curved then 1 else 0
+  let tol : α := if curved then rd v 0 else Scalar.ofSci 1 1
+  let nattr := rdNat v o
+  let start : α := rd v (o + 1)
+  let cap := rdNat v (o + 2)
   let (pat, i) : Walk.Pat α × Nat :=
-    if v.getD 2 "" == "reg" then (Walk.regular (rd v 3) cap, 4)
-    else (Walk.repeated (rdList v 5 (rdNat v 4)) (rdNat v 3) cap, 5 + rdNat v 4)
+    if v.getD (o + 3) "" == "reg" then (Walk.regular (rd v (o + 4)) cap, o + 5)
+    else (Walk.repeated (rdList v (o + 6) (rdNat v (o + 5))) (rdNat v (o + 4)) cap, o + 6 + rdNat v (o + 5))
   let ncmds := rdNat v i
-  let (cmds, _) := rdCmds (α := α) v 0 ncmds (i + 1)
-  let (evs, fuelOut) := Walk.walk pat walkFuel start (cmds.map toPEv)
+  let (cmds, _) := rdCmds (α := α) v nattr ncmds (i + 1)
+  let (evs, fuelOut) := Walk.walk pat walkFuel nattr tol start (cmds.map toPEv)
   unwords (["n", toString evs.length]
-    ++ (evs.map (fun e => [fp e.position, fp e.tangent, fx e.distance])).flatten
+    ++ (evs.map (fun e => [fp e.position, fp e.tangent, fx e.distance] ++ fList e.attributes)).flatten
     ++ (if fuelOut then ["fuel"] else []))
+
+def walk (v : Array String) : String := walkAt (α := α) false v
+def curvedWalk (v : Array String) : String := walkAt (α := α) true v
 
 def fams : List Family := [
   ⟨"sampler", sampler (α := Float32), sampler (α := Float32)⟩,
   ⟨"curved", curved (α := Float32), curved (α := Float32)⟩,
-  ⟨"walk", walk (α := Float32), walk (α := Float32)⟩ ]
+  ⟨"walk", walk (α := Float32), walk (α := Float32)⟩,
+  ⟨"curved_walk", curvedWalk (α := Float32), curvedWalk (α := Float32)⟩ ]
 
 end Lyon.Drive.C19
 
